@@ -33,6 +33,10 @@ class MemTable(tables.Table):
         self.scans += 1
         return iter(self.rows)
 
+    def update(self, **kwargs):
+        # FROM <expression> [OPEN ...] on a user table: the qualifiers do not apply
+        return self
+
 
 def make_conn(**tabs):
     """make_conn(t=([('x', int), ...], [rows...]))"""
